@@ -630,6 +630,16 @@ def run(run):
             run.held('LINKSYM', inst_, rs_.where(), '%d streams x mark placements interpreted' % cases_)
     except O_.AnalysisBroken as ex:
         run.broken('LINKSYM', inst_, str(ex), rs_.where())
+    le_ = fx.one('graphite2::Segment::addLineEnd')
+    inst_ = 'a line-end marker goes in and out without a trace (addLineEnd + delLineEnd interpreted)'
+    try:
+        cases_, bad_ = c19.lineend_exec(run, fx)          # gr_seg_justify puts temporary markers into the stream: prev stays the inverse of next (shared with C19)
+        if bad_:
+            run.violated('LINKSYM', inst_, le_.where(), bad_)
+        else:
+            run.held('LINKSYM', inst_, le_.where(), '%d abstract executions' % cases_)
+    except O_.AnalysisBroken as ex:
+        run.broken('LINKSYM', inst_, str(ex), le_.where())
     run.assume('pre-state of each mutator is a well-formed stream (the rules are the preservation step of an induction; the base case is '
                'appendSlot on the empty segment)')
     run.assume('allocation failure is outside the quantifier')
